@@ -193,7 +193,9 @@ func TestVerifC17Writer(t *testing.T) {
 				for says := 0; says < 3; says++ {
 					for entry := 0; entry < 2; entry++ {
 						c := combo{kind, ipi, porti, says, entry, false}
-						if kind < 2 && ips[ipi].core && porti < 2 {
+						// core = always emitted: every address on the two address types the switch knows, port 0 and one real
+						// port, all three Internal() variants, both entry points (384); the rest is sampled in the quick tier
+						if kind < 2 && porti < 2 {
 							c.core = true
 							core = append(core, c)
 						} else {
@@ -280,7 +282,7 @@ func TestVerifC17Writer(t *testing.T) {
 		if internal {
 			k = "writer-internal"
 		}
-		if c.core {
+		if ips[c.ipi].core && c.core {
 			k += "-sentinel-sweep"
 		}
 		emit(map[string]any{
